@@ -243,6 +243,10 @@ func C16(p *Prog, r *Run) {
 		}
 	})
 
+	r.Rule("C16.5", "numbers stay single-valued under every interleaving: each gene carries a number issued by its own NextInnovationNumber call or taken from the matched record, and a record stores exactly the issued numbers (rules shared with C03)", func() {
+		c03Core(p, r, NewSummaries(p))
+	})
+
 	r.Rule("C16.4", "hand-over: results carry no pointer to repository types; wg.Add precedes go, Done is deferred, Wait dominates close and the receive loop; the closure captures nothing", func() {
 		res := p.Named(PkgG, "reproductionResult")
 		st := res.Underlying().(*types.Struct)
